@@ -50,7 +50,7 @@ Record case_dft := {
   d_x : list cq; d_out : impl_out; d_tol : Q }.
 Definition check_dft (k : case_dft) : bool :=
   let st := match dft_init_status (d_shape k) (d_axes k) (d_hc k) (d_defrange k) with
-            | SOk => if d_inv k then dft_inverse_status (d_pyfftw k) (d_real k) (d_hc k) (d_shape k) (d_axes k)
+            | SOk => if d_inv k then dft_inverse_status (d_pyfftw k) (d_real k) (d_hc k) (d_sg k =? -1)%Z (d_shape k) (d_axes k)
                      else SOk
             | e => e
             end in
